@@ -178,6 +178,36 @@ def build_cases(ctx, rng, lits, kws):
         if i % 6 == 0: add('grammar', refgrammar.spell(lex))
         t, kinds = mutate(rng, lex, lits)
         add('mutant', t, sub='+'.join(sorted(set(kinds))))
+    # analysable units (valid or with one planted fault) whose statements get structured / subscripted variables in place
+    # of plain ones: they parse, and the analysis (type resolution, the rule visitors and their messages) meets shapes
+    # the plain units do not have
+    from .. import units
+    for i in range(200 if q else 3000):
+        decls, ns = units.gen_valid(rng, size=1)
+        sub = 'valid'
+        if i % 4:
+            ss = units.plant_all(decls, ns, rng)
+            if ss:
+                # every fault kind equally often (the diagnostics quote different parts of the tree)
+                kind = rng.choice(sorted({x[0] for x in ss}))
+                sub, _, decls = rng.choice([x for x in ss if x[0] == kind])
+        lines = units.print_file(decls, rng).split('\n')
+        for k, l in enumerate(lines):
+            if (':=' in l or '=>' in l) and ' : ' not in l:
+                def rw(m):
+                    if rng.random() > (0.5 if '=>' in l else 0.25): return m.group(0)
+                    v = m.group(0)
+                    return rng.choice([f'{v}.N1', f'{v}[1]', f'{v}.N2[3].N4', f'{v}.{v}', f'{v}[{v}]', f'{v}.N5.N6.N7', f'{v}[1, 2]'])
+                # inside a call the names before `:=` / `=>` / `(` are formal parameter and instance names: keep them
+                lines[k] = re.sub(r'\bN\d+\b(?!\s*(?::=|=>|\())' if '(' in l else r'\bN\d+\b', rw, l)
+        add('semantic-mutant', '\n'.join(lines), sub=sub)
+    # declaration graphs with several (connected, nested, disjoint) cycles: the recursion diagnosis must still terminate
+    from . import c07
+    for i in range(120 if q else 3000):
+        n = rng.randint(2, 7)
+        edges = list({(rng.randrange(n), rng.randrange(n)) for _ in range(rng.randint(n, 3 * n))})
+        t = c07.realise_fb(n, edges, rng)[0] if i % 2 else c07.realise_type(n, edges, rng, 'mixed')[0]
+        add('decl-graph', t, sub=f'{n}:{len(edges)}')
     lit_cases = c09.int_cases() + c09.real_cases() + c09.dur_cases() + c09.tod_cases() + c09.date_cases() + c09.str_cases()
     rng.shuffle(lit_cases)
     extremes = ['340282366920938463463374607431768211455', '340282366920938463463374607431768211456', '170141183460469231731687303715884105728', '18446744073709551616',
@@ -210,7 +240,7 @@ def build_cases(ctx, rng, lits, kws):
 
 def parse_total(o):
     """-> dict stage -> (verdict, ms), panics list; None when the process died"""
-    if o.startswith('DIED') or o.startswith('PANIC'): return None
+    if o.startswith('DIED') or o.startswith('PANIC') or o.startswith('TIMEOUT') or o.startswith('SKIPPED'): return None
     st, panics = {}, []
     for w in o.split(' '):
         if w.startswith('PANIC('): panics.append(w[6:-1]); continue
@@ -235,7 +265,7 @@ def run(ctx):
     out = [None] * len(cases)
     req = lambda c: 'total ' + (c['data'].hex() if c['data'] else '-')
     for idxs, jobs in ((small, 12), (big, 8)):
-        res = core.run_lines(core.VH, [req(cases[i]) for i in idxs], jobs=jobs, timeout=1800)
+        res = core.run_lines(core.VH, [req(cases[i]) for i in idxs], jobs=jobs, timeout=1800, line_timeout=(60 if idxs is small else 240))
         for i, r in zip(idxs, res): out[i] = r
     for c, o in zip(cases, out):
         ctx.evaluations += 1
@@ -243,10 +273,12 @@ def run(ctx):
         show = {'kind': c['kind'], 'sub': c.get('sub'), 'bytes_hex': c['data'].hex() if len(c['data']) <= 4000 else None, 'size': len(c['data']),
                 'text': c['data'][:600].decode('utf-8', 'replace')}
         if len(c['data']) > 4000: show['regenerate'] = f"kind {c['kind']} sub {c.get('sub')} seed {ctx.seed}"
+        if o.startswith('SKIPPED'):
+            ctx.count('skipped-after-repeated-timeouts'); continue
         pt = parse_total(o)
         if pt is None:
             ctx.violations.append({'stream': 'in-process', 'case': show, 'impl': o[:200], 'model': None,
-                                   'what': 'the process running tokenize/parse/analyze/render died (abort or stack overflow): ' + o[:60]})
+                                   'what': ('a stage did not return within the watchdog time (hang): ' if o.startswith('TIMEOUT') else 'the process running tokenize/parse/analyze/render died (abort or stack overflow): ') + o[:60]})
             continue
         st, panics = pt
         verdict = tuple((k, v[0]) for k, v in sorted(st.items()))
@@ -293,7 +325,7 @@ def run(ctx):
             ctx.evaluations += 1
             truth = (-a if an else a) < (-b if bn else b)
             impl_lt = 'P0004' not in o
-            if o.startswith('PANIC') or o.startswith('DIED'):
+            if o.startswith('PANIC') or o.startswith('DIED') or o.startswith('TIMEOUT'):
                 ctx.violations.append({'stream': 'subrange', 'case': {'text': f'INT({"-" if an else ""}{a}..{"-" if bn else ""}{b})'}, 'impl': o[:200], 'model': m, 'what': 'the subrange rule crashed'})
             elif impl_lt != truth:
                 ctx.violations.append({'stream': 'subrange', 'case': {'text': f'INT({"-" if an else ""}{a}..{"-" if bn else ""}{b})'}, 'impl': o[:200], 'model': m,
